@@ -179,6 +179,9 @@ def run(ck):
     rep = tables.main(os.path.join(common.LEAN, "DS", "Gen"), os.path.join(common.LEAN, "DS", "Gen", "tables_report.json"))
     translated = {s["number"] for s in rep["settings"]}
     ok, info = ck.lean_obligations("DS.Props.C02")
+    ok_g, info_g = ck.lean_obligations("DS.Props.C02Gap")
+    if not ok_g:
+        ok, info = False, info_g
     allstrata = strata.all_strata(sgs.SpaceGroupList)
     cases = list(gen_cases(ck, sgs.SpaceGroupList, allstrata))
     lines, Ds, mcases = [], [], []
@@ -246,7 +249,7 @@ def run(ck):
     ]
     ck.assumptions += [
         "float rounding inside SymOp.__call__ and the bucket arithmetic is observed only through the differential (tolerance 1e-9; 5e-7 for sites perturbed by 1e-7)",
-        "theorem orbit_exact covers sites whose images are pairwise equal or farther apart than eps (Sep); near-special sites are covered by the correspondence and the oracle",
+        "orbit_exact covers sites whose images are pairwise equal or farther apart than eps (Sep); gap_result / perturbed_counts cover sites whose images are pairwise within eps/4 or farther than 2 eps (Gap), in particular perturbations of an exactly special site by less than eps/8; configurations in between are covered by correspondence + oracle only",
     ]
     ck.coverage["trusted_base"] += ["translate/tables.py", "harness/strata.py (generator of sites; not an oracle)"]
     if not ok and not ck.violations:
